@@ -1,2 +1,109 @@
-(* placeholder: theorems being added *)
-From DC Require Import Model.Base Model.Specs.
+(* C10 - Built-in specifications evaluate to their documented meaning; failing evaluations report
+   non-empty breach locations that lie inside the specification's span and cover the breach.
+   Each theorem relates the evaluation ALGORITHM of the model (cumulative sums, nonzero, grouping,
+   coordinate mapping; tied to the code by correspondence on all 16 modelled classes) to the
+   documented formula written directly.  Classes whose formula theorem is not proved here
+   (EnforceTranslation, EnforceChanges, AvoidRareCodons, MaximizeCAI, HarmonizeRCA, UniquifyAllKmers,
+   AvoidHairpins, EnforceTerminalGCContent) are decided by correspondence + independent references. *)
+From Coq Require Import ZArith QArith Qminmax Qabs Bool List Ascii String Lia.
+From DC Require Import Model.Base Model.Loc Model.Bio Model.Pattern Model.MSpace Model.Specs
+                       Generated.GenTables Proofs.SpecsDefs Proofs.SpecsEval Proofs.SpecsLocalA Proofs.SpecsLocalB Proofs.SpecsLocalC.
+Import ListNotations.
+Open Scope Z_scope.
+
+Theorem C10_intervals_of_cover : forall idx spread i, 1 <= spread -> In i idx -> covered (intervals_of idx spread) i.
+Proof. exact intervals_of_cover. Qed.
+Print Assumptions C10_intervals_of_cover.
+
+Theorem C10_intervals_of_within : forall idx spread lo hi,
+  (forall i, In i idx -> lo <= i < hi) -> all_within (intervals_of idx spread) lo hi.
+Proof. exact intervals_of_within. Qed.
+Print Assumptions C10_intervals_of_within.
+
+Theorem C10_intervals_of_nonempty : forall idx spread, idx <> [] -> intervals_of idx spread <> [].
+Proof. exact intervals_of_nonempty. Qed.
+Print Assumptions C10_intervals_of_nonempty.
+
+Theorem C10_avoid_pattern_meaning : forall P l s, 1 <= psize P -> loc_in l (zlen s) ->
+  let e := eval_avoid_pattern P l s in
+  score e = zq (- n_occ P s l) /\
+  (passes e = true <-> n_occ P s l = 0) /\
+  (exists ls, locs e = Some ls /\ zlen ls = n_occ P s l /\
+     all_within ls (lstart l) (lend l) /\ Forall (fun m => lend m - lstart m = psize P) ls).
+Proof. exact avoid_pattern_meaning. Qed.
+Print Assumptions C10_avoid_pattern_meaning.
+
+Theorem C10_pattern_occ_meaning : forall P occ l s, 0 <= psize P -> loc_in l (zlen s) ->
+  let e := eval_pattern_occ P occ l s in
+  score e = zq (- Z.abs (n_occ P s l - occ)) /\ (passes e = true <-> n_occ P s l = occ) /\ locs e = Some [l].
+Proof. exact pattern_occ_meaning. Qed.
+Print Assumptions C10_pattern_occ_meaning.
+
+Theorem C10_gc_windowed_meaning : forall mini maxi w l s, 1 <= w -> loc_in l (zlen s) -> lstrand l <> -1 ->
+  let e := eval_gc mini maxi (Some w) l s in
+  let starts := zrange (lstart l) (lend l - w + 1) in
+  (score e == - qsum (map (fun i => breach mini maxi (gc_frac s i w)) starts))%Q /\
+  (passes e = true <-> forall i, In i starts -> (mini <= gc_frac s i w)%Q /\ (gc_frac s i w <= maxi)%Q) /\
+  (exists ls, locs e = Some ls /\ all_within ls (lstart l) (lend l) /\
+     (forall i, In i starts -> ~ ((mini <= gc_frac s i w)%Q /\ (gc_frac s i w <= maxi)%Q) -> span_covered ls i (i + w)) /\
+     (passes e = false -> ls <> [])).
+Proof. exact gc_windowed_meaning. Qed.
+Print Assumptions C10_gc_windowed_meaning.
+
+Theorem C10_gc_global_meaning : forall mini maxi l s, loc_in l (zlen s) -> lstrand l <> -1 -> lstart l < lend l ->
+  let e := eval_gc mini maxi None l s in
+  let g := (count_gc (slice s (lstart l) (lend l)) # Z.to_pos (loc_len l)) in
+  (score e == - breach mini maxi g)%Q /\
+  (passes e = true <-> (mini <= g)%Q /\ (g <= maxi)%Q) /\
+  (passes e = false -> locs e = Some [mkLoc (lstart l) (lend l) 0]).
+Proof. exact gc_global_meaning. Qed.
+Print Assumptions C10_gc_global_meaning.
+
+Theorem C10_enforce_sequence_meaning : forall w l s, loc_in l (zlen s) -> zlen w = loc_len l ->
+  let e := eval_enforce_sequence w l s in
+  let sub := extract l s in
+  let bad := indices_where (fun p => negb (iupac_matches (snd p) (fst p))) (combine sub w) 0 in
+  score e = zq (- zlen bad) /\
+  (passes e = true <-> bad = []) /\
+  (exists ls, locs e = Some ls /\ all_within ls (lstart l) (lend l) /\
+     (forall r, In r bad -> covered ls (if lstrand l =? -1 then lend l - 1 - r else lstart l + r)) /\
+     (passes e = false -> ls <> [])).
+Proof. exact enforce_sequence_meaning. Qed.
+Print Assumptions C10_enforce_sequence_meaning.
+
+Theorem C10_avoid_changes_meaning : forall l tg me s e, loc_in l (zlen s) -> lstrand l <> -1 -> zlen tg = loc_len l ->
+  evaluate (SAvoidChanges l None tg me) s = Some e ->
+  score e = zq (me - diff_count (slice s (lstart l) (lend l)) tg) /\
+  (exists ls, locs e = Some ls /\ all_within ls (lstart l) (lend l) /\
+     (forall i, lstart l <= i < lend l ->
+        nth_error s (Z.to_nat i) <> nth_error tg (Z.to_nat (i - lstart l)) -> covered ls i)).
+Proof. exact avoid_changes_meaning. Qed.
+Print Assumptions C10_avoid_changes_meaning.
+
+Theorem C10_stop_codons_meaning : forall T l s e, eval_stop_codons T l s = Some e ->
+  exists aas, translate T (extract l s) = Some aas /\
+    score e = zq (- zlen (filter (fun a => Ascii.eqb a "*") aas)) /\
+    (passes e = true <-> forall a, In a aas -> a <> "*"%char).
+Proof. exact stop_codons_meaning. Qed.
+Print Assumptions C10_stop_codons_meaning.
+
+Theorem C10_choice_meaning : forall cs l s,
+  let e := eval_enforce_choice cs l s in
+  (In (extract l s) cs -> score e = 0%Q /\ locs e = Some []) /\
+  (~ In (extract l s) cs -> score e = zq (-1) /\ locs e = Some [l]).
+Proof. exact choice_meaning. Qed.
+Print Assumptions C10_choice_meaning.
+
+Theorem C10_length_meaning : forall mn mx s,
+  let e := eval_length mn mx s in
+  let ok := mn <= zlen s /\ match mx with Some m => zlen s <= m | None => True end in
+  (ok -> score e = zq 0) /\ (~ ok -> score e = zq (-1)).
+Proof. exact length_meaning. Qed.
+Print Assumptions C10_length_meaning.
+
+(* Non-vacuity *)
+Example C10_ex_gc :
+  option_map (fun e => (Qeq_bool (score e) (-(1 # 2)), locs e))
+             (evaluate (SGC (1 # 4) (3 # 4) (Some 4) (mkLoc 0 8 0)) (sq "GGGGAAAA"))
+  = Some (true, Some [mkLoc 0 8 0]).
+Proof. vm_compute. reflexivity. Qed.
